@@ -68,6 +68,9 @@ opcodes = {
     "i32.le_u": 0x4D,
     "i32.ge_s": 0x4E,
     "i32.ge_u": 0x4F,
+    "f32.eq": 0x5B,
+    "f32.lt": 0x5D,
+    "f32.gt": 0x5E,
     "i32.add": 0x6A,
     "i32.sub": 0x6B,
     "i32.mul": 0x6C,
